@@ -1,4 +1,4 @@
-from typing import Any, Iterable, List, Optional, Tuple
+from typing import Any, Iterable, List, Optional, Set, Tuple
 
 from pdfminer import settings
 from pdfminer.pdfparser import PDFSyntaxError
@@ -14,6 +14,7 @@ class NumberTree:
 
     def __init__(self, obj: Any):
         self._obj = dict_value(obj)
+        self._objid: Optional[int] = getattr(obj, "objid", None)
         self.nums: Optional[Iterable[Any]] = None
         self.kids: Optional[Iterable[Any]] = None
         self.limits: Optional[Iterable[Any]] = None
@@ -25,7 +26,13 @@ class NumberTree:
         if "Limits" in self._obj:
             self.limits = list_value(self._obj["Limits"])
 
-    def _parse(self) -> List[Tuple[int, Any]]:
+    def _parse(self, visited: Optional[Set[int]] = None) -> List[Tuple[int, Any]]:
+        # Nodes are remembered by object number so that /Kids leading back
+        # to a node already seen cannot recurse forever.
+        if visited is None:
+            visited = set()
+        if self._objid is not None:
+            visited.add(self._objid)
         items = []
         if self.nums:  # Leaf node
             for k, v in choplist(2, self.nums):
@@ -33,7 +40,9 @@ class NumberTree:
 
         if self.kids:  # Root or intermediate node
             for child_ref in self.kids:
-                items += NumberTree(child_ref)._parse()
+                if getattr(child_ref, "objid", None) in visited:
+                    continue
+                items += NumberTree(child_ref)._parse(visited)
 
         return items
 
